@@ -48,7 +48,8 @@ def check(run):
         for i in range(60 if quick else 600):
             s = refexp.gen_session(rng, nops=rng.randrange(1, 25), maxes=[1, 2, 3, 50], nbps=rng.choice([1, 2, 3]), simple_bp=rng.random() < 0.6)
             # versions: mostly 1.0.1, sometimes different
-            v = rng.choice(["maj=1,min=0,priv=1"] * 6 + ["maj=1,min=0", "maj=1,min=1,priv=1", "maj=2,min=0,priv=1", "maj=1,min=0,priv=2"])
+            v = rng.choice(["maj=1,min=0,priv=1"] * 6 + ["maj=1,min=0", "maj=1,min=0", "maj=1,min=0,priv=0", "maj=1,min=0,priv=0", "maj=1,min=1,priv=1", "maj=2,min=0,priv=1",
+                                                                "maj=1,min=0,priv=2", "maj=0,min=1,priv=1", "maj=1,min=0,priv=10"])
             line = re.sub(r"FP:\S+", "FP:" + v, s[0])
             sessions.append((line, s[1], s[2]))
         res = E.run_sessions(run, sessions, need_rd=False)
